@@ -6,7 +6,7 @@ CMP = ["==", "!=", "<", "<=", ">", ">="]
 ARI = ["+", "-", "&", "|", "^", "*"]
 
 
-def gen_program(seed, with_soft=True, max_stmts=3):
+def gen_program(seed, with_soft=True, max_stmts=3, with_order=False):
     r = random.Random(seed)
     F = {}
     rand = []
@@ -87,6 +87,14 @@ def gen_program(seed, with_soft=True, max_stmts=3):
         stmts.append(("soft", boolean(0)))
         if r.random() < 0.5:
             stmts.append(("soft", boolean(0)))
+    if with_order and len(rand) >= 2:
+        ro = list(rand)
+        r.shuffle(ro)
+        for i in range(r.choice([1, 1, 2])):
+            if i + 1 < len(ro):
+                stmts.append(("order", [ro[i]], [ro[i + 1]]))       # acyclic: follows the shuffled order
+        if len(ro) >= 3 and r.random() < 0.3:
+            stmts.append(("order", [ro[0]], [ro[1], ro[2]]))
     return {"F": F, "rand": rand, "fixed": fixed, "stmts": stmts, "seed": seed}
 
 
@@ -124,6 +132,9 @@ def rs(st, ind):
         return [p + "vsc.soft(%s)" % rx(st[1])]
     if k == "unique":
         return [p + "vsc.unique(%s)" % ", ".join("self.%s" % n for n in st[1])]
+    if k == "order":
+        f = lambda l: ("self.%s" % l[0]) if len(l) == 1 else "[" + ", ".join("self.%s" % n for n in l) + "]"
+        return [p + "vsc.solve_order(%s, %s)" % (f(st[1]), f(st[2]))]
     if k == "implies":
         out = [p + "with vsc.implies(%s):" % rx(st[1])]
         for s in st[2]:
